@@ -1053,3 +1053,9 @@ TABLE["C17"] += [
     B("apostrophes-unescaped-after-tokenising", {"Q1"},
       (PW, "        return '\"' + body.replace('\"', r'\\\"') + '\"'\n", "        body = body.replace(\"\\\\'\", \"'\").replace('\"', '\\\\\"')\n        return '\"' + body + '\"'\n")),
 ]
+TABLE["C18"] += [
+    B("empty-matrix-shortcut-loses-the-shape", {"K8"},
+      (H, "  double* data = (double*)mxGetData(array);\n  gtsam::Matrix A(m,n);", "  double* data = (double*)mxGetData(array);\n  if (data==NULL) return gtsam::Matrix();\n  gtsam::Matrix A(m,n);")),
+    N("empty-matrix-shortcut-keeps-the-shape",
+      (H, "  double* data = (double*)mxGetData(array);\n  gtsam::Matrix A(m,n);", "  double* data = (double*)mxGetData(array);\n  if (data==NULL) return gtsam::Matrix(m,n);\n  gtsam::Matrix A(m,n);")),
+]
